@@ -145,6 +145,19 @@ fn run_scenario<W: Write>(name: &str, sink: W) -> (Result<(), String>, Option<us
             let mut w = GenericSingleObjectWriter::new_with_capacity(&kschema, 64).unwrap();
             match w.write_value_ref(&kitchen_value(), &mut sink) { Ok(n) => (Ok(()), Some(n)), Err(e) => (Err(e.to_string()), None) }
         }
+        "single-generic-reuse" => {
+            // the same writer after a call whose sink failed: the failed message must leave nothing behind
+            struct AlwaysFail;
+            impl Write for AlwaysFail {
+                fn write(&mut self, _b: &[u8]) -> std::io::Result<usize> { Err(std::io::Error::other("harness: this sink always fails")) }
+                fn flush(&mut self) -> std::io::Result<()> { Ok(()) }
+            }
+            let s = Schema::String;
+            let mut w = GenericSingleObjectWriter::new_with_capacity(&s, 64).unwrap();
+            let first = w.write_value_ref(&Value::String("ab".into()), &mut AlwaysFail);
+            if first.is_ok() { return (Err("a write into a failing sink returned Ok".to_string()), None); }
+            match w.write_value_ref(&Value::String("cde".into()), &mut sink) { Ok(n) => (Ok(()), Some(n)), Err(e) => (Err(e.to_string()), None) }
+        }
         "single-specific-value" => {
             let w = SpecificSingleObjectWriter::<Msg>::new().unwrap();
             match w.write_value(msg(), &mut sink) { Ok(n) => (Ok(()), Some(n)), Err(e) => (Err(e.to_string()), None) }
@@ -181,8 +194,8 @@ fn run_scenario<W: Write>(name: &str, sink: W) -> (Result<(), String>, Option<us
 
 // (container files with a codec or user metadata have a header whose map entry order varies from run to run,
 // so their bytes are not comparable with a reference run; the null codec without metadata is deterministic)
-const SCENARIOS: [&str; 9] = ["datum-kitchen", "datum-string", "datum-unvalidated", "ser-direct", "ser-buffered", "single-generic",
-    "single-specific-value", "single-specific-ser", "container-null"];
+const SCENARIOS: [&str; 10] = ["datum-kitchen", "datum-string", "datum-unvalidated", "ser-direct", "ser-buffered", "single-generic",
+    "single-generic-reuse", "single-specific-value", "single-specific-ser", "container-null"];
 
 fn one_run(id: usize, scen: &str, reference: &[u8], k: usize, rand: Option<u64>, fault: Fault, at: usize, out: &mut Box<dyn Write>) -> usize {
     let sink = FaultySink::new(k, rand, fault, at);
